@@ -242,6 +242,9 @@ def run(ctx) -> Result:
     res.not_decided.append("that the entries selected by a complete candidate add up to its Kemeny score (composition "
                            "with C01's counting core, which is numeric)")
     res.assumptions.append("numba nopython mode preserves the Python semantics of the kernel")
+    if not res.violations:      # the end-to-end pass adds nothing to an established violation (and may not terminate on it)
+        from . import e2e
+        e2e.check(res, ctx.proj, "C02", ctx.thorough)
     return res
 
 
